@@ -21,6 +21,8 @@ fn main() {
         },
         Some("record") => watch::record_main(&args[2..]),
         Some("record-child") => rec::child_main(&args[2..]),
+        Some("consts") => watch::consts_main(&args[2..]),
+        Some("consts-child") => rec::consts_child_main(&args[2..]),
         _ => {
             eprintln!("usage: wf-fields <selftest|record> ...");
             2
